@@ -464,3 +464,109 @@ func R15FailureCloses(c *Ctx) {
 		c.R.Anchor(rule, "a call of socks.SendConnectFailure in package agent")
 	}
 }
+
+// R15PrivateChunk — a relayed chunk is a private copy.
+func R15PrivateChunk(c *Ctx) {
+	const rule = "R15-private-chunk"
+	c.R.Rule(rule, "the byte slice SocksClientRead / PortFwdRead return — which is queued in a socket-write task and serialised later, possibly after further reads — is backed by memory allocated in that call (make, append onto nil, a local bytes.Buffer) and not handed to anything else: it is never a sub-slice of a buffer that is reused, pooled or stored (the next read would overwrite a chunk that is still queued)", 2)
+	for _, name := range []string{"Agent.SocksClientRead", "Agent.PortFwdRead"} {
+		fn := c.P.Func(PkgAgent, name)
+		if fn == nil {
+			c.R.Anchor(rule, "agent.(*"+name+")")
+			continue
+		}
+		for _, b := range fn.Blocks {
+			if len(b.Instrs) == 0 {
+				continue
+			}
+			ret, ok := b.Instrs[len(b.Instrs)-1].(*ssa.Return)
+			if !ok || len(ret.Results) == 0 {
+				continue
+			}
+			why := privateBytes(ret.Results[0], fn, 0)
+			if k, isC := ret.Results[0].(*ssa.Const); isC && k.IsNil() {
+				continue
+			}
+			construct := "returned chunk is freshly allocated"
+			if why == "" {
+				c.R.Ok(rule, FuncShort(fn), construct, c.pos(ret.Pos()), "backed by memory allocated in this call and not shared", true)
+			} else {
+				c.R.Bad(rule, FuncShort(fn), construct, c.pos(ret.Pos()), "the returned chunk "+why+": a later read reuses that memory while the chunk is still queued for the agent, so relayed bytes are overwritten")
+			}
+		}
+	}
+}
+
+// privateBytes returns "" when v is backed by memory allocated in fn and not shared, else a description.
+func privateBytes(v ssa.Value, fn *ssa.Function, depth int) string {
+	if depth > 8 {
+		return "has an origin the rule cannot follow"
+	}
+	escapes := func(x ssa.Value) string {
+		for _, r := range *x.Referrers() {
+			switch u := r.(type) {
+			case *ssa.Store:
+				if u.Val == x {
+					if _, isAlloc := u.Addr.(*ssa.Alloc); !isAlloc {
+						return "is also stored into a longer-lived location"
+					}
+				}
+			case ssa.CallInstruction:
+				n := CalleeName(u)
+				if strings.Contains(n, "sync.Pool).Put") {
+					return "is put back into a sync.Pool"
+				}
+			}
+		}
+		return ""
+	}
+	switch x := v.(type) {
+	case *ssa.Const:
+		return ""
+	case *ssa.MakeSlice:
+		return escapes(x)
+	case *ssa.Slice:
+		return privateBytes(x.X, fn, depth+1)
+	case *ssa.Alloc:
+		// make with constant size: new [N]byte; or a local variable cell
+		if s := escapes(x); s != "" {
+			return s
+		}
+		for _, r := range *x.Referrers() {
+			if st, ok := r.(*ssa.Store); ok && st.Addr == ssa.Value(x) {
+				if s := privateBytes(st.Val, fn, depth+1); s != "" {
+					return s
+				}
+			}
+		}
+		return ""
+	case *ssa.UnOp:
+		return privateBytes(x.X, fn, depth+1)
+	case *ssa.Phi:
+		for _, e := range x.Edges {
+			if s := privateBytes(e, fn, depth+1); s != "" {
+				return s
+			}
+		}
+		return ""
+	case *ssa.Call:
+		switch CalleeName(x) {
+		case "builtin.append":
+			return privateBytes(x.Call.Args[0], fn, depth+1)
+		case "(*bytes.Buffer).Bytes":
+			// a buffer local to this call
+			if al, ok := x.Call.Args[0].(*ssa.Alloc); ok {
+				return escapes(al)
+			}
+			return "comes from a bytes.Buffer that is not local to the call"
+		case "bytes.Clone":
+			return ""
+		}
+		return "comes from " + CalleeName(x) + "()"
+	case *ssa.TypeAssert:
+		return "is " + DescribeValue(x.X) + " asserted to []byte (not allocated here)"
+	case *ssa.Parameter, *ssa.Global, *ssa.FreeVar:
+		return "is memory owned outside this call"
+	}
+	return "has an origin the rule cannot follow"
+}
